@@ -221,7 +221,7 @@ func init() {
 	register(&Check{
 		ID:        "C07",
 		QuickSecs: 120, ThoroSecs: 900,
-		Rule: "input-space exploration, metamorphic: every single-dash token -LETTERS[=v] with LETTERS a string of length 1..Ll over 8 letters (two flags, increment, string, int, a multibyte valued option, a multibyte flag, an undeclared letter) and v in {none, x, 5, =y, `a b`} " +
+		Rule: "input-space exploration, metamorphic: every single-dash token -LETTERS[=v] with LETTERS a string of length 1..Ll over 8 letters (two flags, increment, string, int, a multibyte valued option, a multibyte flag, an undeclared letter) and v in {none, x, 5, =y, `a b`, empty} " +
 			"in 6 contexts (alone, followed by a value, followed by an option, after a positional, after a command, after a command and followed by a value) x 3 modes x SetMode before/after the commands are declared; the complete outcome of Parse on the token is compared with Parse on its documented rewriting " +
 			"(restricted to the statement's preconditions in Bundling mode); plus every long-only argv of length <= 3 over 10 tokens compared across the three modes; distinct_nontrivial = distinct (definition, argv) pairs compared",
 		Assume: []string{"letters outside the alphabet and tokens longer than Ll are not covered"},
@@ -231,7 +231,7 @@ func init() {
 				ll = 5
 			}
 			res := c.Res
-			attaches := []*string{nil, sp("x"), sp("5"), sp("=y"), sp("a b")}
+			attaches := []*string{nil, sp("x"), sp("5"), sp("=y"), sp("a b"), sp("")}
 			res.Bounds = map[string]any{"Ll": ll, "letters": c07Letters, "contexts": 6}
 			longAlpha := []string{"--a", "--s=v", "--s", "v", "--long=x", "--lo=x", "--an", "--i=3", "--zz", "c", "--é=w"}
 			units := len(c07Letters) + len(longAlpha)
